@@ -144,6 +144,13 @@ def run_check(mod, tier, seed, budget=None, selftest=False):
     known_total = {}
     kinds = getattr(mod, 'KINDS', None) or [getattr(mod, 'KIND', 'explorer')]
     vac = []
+    conf = None
+    uses_kernel = getattr(mod, 'USES_KERNEL', 'explorer' in kinds)
+    if uses_kernel and not os.environ.get('VERIF_SKIP_CONFORMANCE'):
+        import subprocess
+        cmd = [sys.executable, os.path.join(R.VERIF, 'vt', 'live.py')] + (['--pairs'] if tier == 'thorough' else [])
+        env = dict(os.environ, PYTHONPATH=R.VERIF)
+        conf = subprocess.Popen(cmd, stdout=subprocess.PIPE, stderr=subprocess.PIPE, env=env, cwd='/')
     for kind in kinds:
         if kind == 'explorer':
             stats, meta, scns = R.run_explorer_property(mod, tier, seed, budget)
@@ -171,7 +178,7 @@ def run_check(mod, tier, seed, budget=None, selftest=False):
             clauses = {k: {'evaluations': v[0], 'nontrivial': v[1]} for k, v in sorted(total.clauses.items())}
             ecov = {
                 'evaluations': total.cases,
-                'distinct_nontrivial': len(total.nontrivial) if total.nontrivial else total.nontrivial_count,
+                'distinct_nontrivial': len(total.nontrivial) + total.nontrivial_count,
                 'rule': getattr(mod, 'RULE', ''),
                 'samples': total.samples or [{'note': 'none'}],
                 'exhaustive': True,
@@ -197,6 +204,26 @@ def run_check(mod, tier, seed, budget=None, selftest=False):
                 known_total.update(kh)
             for k2, v in out.get('coverage', {}).items():
                 cov.setdefault(k2, v)
+    if conf is not None:
+        try:
+            out, err = conf.communicate(timeout=600)
+            cres = json.loads(out.decode() or '{}')
+        except Exception as e:
+            conf.kill()
+            cres = {'cases': 0, 'mismatches': [{'error': repr(e)}]}
+        cov['env_model_conformance_cases'] = cres.get('cases', 0)
+        cov['env_model_conformance_mismatches'] = len(cres.get('mismatches', []))
+        cov['env_model_conformance'] = ('process condition x call matrix (single calls%s) run on vt/simkernel.py and on real '
+                                        'psutil.Popen children of this kernel; results must agree' %
+                                        (' and all ordered pairs' if tier == 'thorough' else ''))
+        if cres.get('mismatches') or not cres.get('cases'):
+            new += 1
+            path = F.write_replay(prop_id, {'clause': 'HARNESS.env_model_mismatch', 'where': 'vt/simkernel.py',
+                                            'scenario': {'name': 'conformance', 'params': {}}, 'choices': [],
+                                            'detail': json.dumps(cres.get('mismatches'))[:3000]})
+            lines.append('VIOLATION property=%s replay=%s' % (prop_id, path))
+            lines.append('  harness: the environment model disagrees with the real kernel/psutil: %s'
+                         % json.dumps(cres.get('mismatches'))[:600])
     if hasattr(mod, 'bounds'):
         cov['bounds'] = mod.bounds(tier)
     cov['known_findings_hit'] = sorted(known_total)
